@@ -80,7 +80,7 @@ fn float_eq(a: f64, b: f64) -> bool {
         diff < (f64::EPSILON * f64::MIN_POSITIVE)
     } else {
         // use relative error.
-        diff / (abs_a + abs_b) < f64::EPSILON
+        diff / (abs_a + abs_b).min(f64::MAX) < f64::EPSILON
     }
 }
 
